@@ -20,9 +20,10 @@ type multiMember struct {
 	cfg    gen.Config
 	orders [][]string
 	// expectations
-	expectErr bool              // the input contains an ungeneratable element: the run must return an error
-	outOf     map[string]string // schema file -> output file it must land in
-	pkgOf     map[string]string // output file -> package import path
+	composedRoot string            // this file's root is an allOf composition: its merged struct must carry every branch's required keys
+	expectErr    bool              // the input contains an ungeneratable element: the run must return an error
+	outOf        map[string]string // schema file -> output file it must land in
+	pkgOf        map[string]string // output file -> package import path
 }
 
 func objSpec(ps ...*fam.Prop) *fam.Spec { return &fam.Spec{Kind: "object", Props: ps} }
@@ -188,6 +189,17 @@ func multiMembers() []multiMember {
 			files:  []*fam.FileSpec{{Name: "a.json", ID: "https://example.com/a", Root: ra2}, {Name: "b.json", ID: "https://example.com/b", Root: rb2}},
 			orders: [][]string{{"a.json"}, {"b.json", "a.json"}},
 			outOf:  map[string]string{"a.json": "out.go", "b.json": "out.go"}, pkgOf: map[string]string{"out.go": "example.com/pkg/model"}})
+	}
+	// a whole-file reference to a root WITHOUT "type" and without properties of its own: a pure allOf composition
+	{
+		party := objSpec(&fam.Prop{Label: "nm", Spec: &fam.Spec{Kind: "string"}, Required: true})
+		party.Ref = "$defs"
+		comp := &fam.Spec{Kind: "object", NoType: true, AllOf: []*fam.Spec{party, objSpec(&fam.Prop{Label: "email", Spec: &fam.Spec{Kind: "string", Kw: []string{"minLength"}}, Required: true})}}
+		fa := &fam.FileSpec{Name: "a.json", ID: "https://example.com/a", Root: objSpec(&fam.Prop{Label: "customer", Spec: &fam.Spec{RefRootOf: "b.json", Kind: "object"}, Required: true})}
+		fb := &fam.FileSpec{Name: "b.json", ID: "https://example.com/b", Root: comp}
+		out = append(out, multiMember{name: "whole-file reference to a typeless root that is a pure allOf composition", cfg: base, files: []*fam.FileSpec{fa, fb},
+			orders: [][]string{{"a.json"}},
+			outOf:  map[string]string{"a.json": "out.go", "b.json": "out.go"}, pkgOf: map[string]string{"out.go": "example.com/pkg/model"}, composedRoot: "b.json"})
 	}
 	// two files WITHOUT $id: the referenced file is still processed as a whole — all its types are emitted, and an ungeneratable
 	// element anywhere in it fails the run
@@ -444,6 +456,18 @@ func checkRouting(mm multiMember, w *fam.MultiWorld, args []string) []fam.Issue 
 		reached[fs.Name] = len(reach(mm, mm.outOf[fs.Name], args)) > 0 && contains(reach(mm, mm.outOf[fs.Name], args), fs.Name)
 	}
 	for _, fs := range w.Specs {
+		if fs.Name == mm.composedRoot && reached[fs.Name] {
+			if fm := w.Models[mm.outOf[fs.Name]]; fm != nil {
+				w.Spec = fs.Root
+				for _, is := range w.CheckObject(fm, fs.Root, "", fs.Name) {
+					switch is.Rule {
+					case "A-REQ", "A-MAP", "A-REJ", "A-TAG":
+						out = append(out, is)
+					}
+				}
+			}
+			continue
+		}
 		if !reached[fs.Name] || len(fs.Root.Props) == 0 {
 			continue
 		}
